@@ -1,7 +1,7 @@
 """C11 Every entry point fails only with its documented exception."""
 import json, struct
 from core import Case
-import gen, gen_spec, gen_misc
+import gen, gen_spec, gen_misc, gen_plat
 
 IMPL_MODULE = "exc_impl"
 RULE = ("per entry point: valid inputs from the structured generators, 1-3 character mutations of them (incl. quotes, backslash, newline, NUL, "
@@ -76,6 +76,10 @@ def elf_bytes(rng):
     if rng.random() < 0.3: data = data[: rng.randrange(0, len(data) + 1)]
     return data.decode("latin-1")
 
+URLS = ["https://example.com/a.whl", "file:///tmp/x", "git+https://github.com/a/b.git@main#egg=a", "https://[::1]/x.zip", "https://[example.com/x.zip", "https://a]b/x",
+        "https://[not-an-ip]/x", "https://exa\u2100mple.com/x", "http://user:pw@host:99999/p?q=1#f", "//x", ":", "x:y@z", "git+ssh://git@host:repo.git", "https://[v1.fe80::a]/", "HTTP://EXAMPLE.COM",
+        "https://xn--nxasmq6b.com/", "https://%zz/", "a" * 300, "ftp://[", "]", "https://[::1", "https://host:port/x", "\\\\unc\\path", "C:\\x.whl", "https://é.com/x"]
+
 def streams(rng, tier):
     q = tier == "quick"
     n = 500 if q else 12000
@@ -102,6 +106,10 @@ def streams(rng, tier):
         for e in ("parse_email.str", "parse_email.bytes", "Metadata.from_email.str", "Metadata.from_email.bytes"):
             add("email", e, doc if e.endswith("bytes") else doc)
         add("elf", "ELFFile", elf_bytes(rng))
+        add("elf", "ELFFile", gen_plat.b2s(gen_plat.rand_elf(rng)[0]))
+        url = rng.choice(URLS)
+        if rng.random() < 0.3: url = gen.mutate(rng, url, list("[]:/@#?%\\") + ["\u2100", "\xe9"])
+        add("requirement-url", "Requirement", "%s @ %s%s" % (rng.choice(gen_misc.NAMES), url, rng.choice(["", " ; os_name == 'a'", ";os_name=='a'"])))
         out.append(Case("raw-metadata", "law.exc.raw", [json.dumps(raw_dict(rng))], kind="law"))
     entries = ["Version", "Specifier", "Specifier.contains", "Specifier.arbitrary", "SpecifierSet", "SpecifierSet.contains", "Marker", "Requirement",
                "canonicalize_name.validate", "canonicalize_name", "is_normalized_name", "canonicalize_version", "parse_wheel_filename", "parse_sdist_filename",
